@@ -75,6 +75,8 @@ class Ctx:
         self.functions_analysed: set[str] = set()
         if self.renamed_helpers:
             self.notes.append("private helpers recognised by role under a new name: " + ", ".join(f"{k} <- {v}" for k, v in sorted(self.renamed_helpers.items())))
+        if self.prog.unrolled:
+            self.notes.append("loops over literal tables read as unrolled ladders: " + ", ".join(self.prog.unrolled))
         self.depth = 4 if tier == "quick" else 6
         self.loop_bound = 2 if tier == "quick" else 3
 
